@@ -234,6 +234,18 @@ def run_combinator(kind, rng, obs, hostile=False):
     obs.check(fired_a == p3.fired and out_a == out_b, tag + ':a combined constraint keeps no state between calls', members=specs, first_x=x0, second_x=x1,
               reused=[fired_a, out_a], fresh=[p3.fired, out_b], maxiter=maxiter)
     obs.event('reuse_calls')
+    # ... and applied to its own previous answer (c(c(x))): again what a freshly built one says about that vector
+    p4 = Paths(); comb4, _ = build(p4, 'both')
+    del paths.fired[:]
+    st = _random.getstate()
+    out_c = list(comb(list(out_a))); fired_c = list(paths.fired)
+    after = _random.getstate(); _random.setstate(st)
+    try:
+        out_d = list(comb4(list(out_a)))
+    finally:
+        _random.setstate(after)
+    obs.check(fired_c == p4.fired and out_c == out_d, tag + ':a combined constraint keeps no state between calls', members=specs, first_x=x1, second_x=out_a,
+              reused=[fired_c, out_c], fresh=[p4.fired, out_d], maxiter=maxiter, applied_to_its_own_answer=True)
     obs.nontrivial = (ncalls > len(specs)) or path == 'onfail' or cnt.n > 0
     obs.notes = {'path': path, 'member_calls': ncalls, 'random_draws': cnt.n, 'result': out}
 
